@@ -27,8 +27,11 @@ VIRTUAL = {'Dict': ('_all',), 'MatchMapping': ('_all',), 'Compare': ('_all',), '
            'Call': ('_args',), 'ClassDef': ('_bases', '_body'), 'Module': ('_body',), 'FunctionDef': ('_body',),
            'AsyncFunctionDef': ('_body',), 'MatchClass': ('_attrs',)}
 
+EXTRA = ('copy_ast', 'ast_src', 'dump', 'find_loc', 'find_in_loc', 'find_contains_loc', 'repath', 'path_roundtrip',
+         'last_header_child', 'parents', 'own_lines', 'scope_symbols', 'walk_order', 'get_src_loc')
+
 QUERIES = (('loc', 'bloc', 'pars_T', 'pars_F', 'src', 'own_src', 'parent', 'pfield', 'root', 'lens', 'next_child',
-            'prev_child', 'child_path', 'line_comment') + PREDICATES + METHODS0 + POSATTRS + NAV0)
+            'prev_child', 'child_path', 'line_comment') + PREDICATES + METHODS0 + POSATTRS + NAV0 + EXTRA)
 
 
 def _canon(v, pathof):
@@ -42,6 +45,10 @@ def _canon(v, pathof):
         return [_canon(x, pathof) for x in v]
     if isinstance(v, list):
         return [_canon(x, pathof) for x in v]
+    if isinstance(v, dict):
+        return {str(k): _canon(x, pathof) for k, x in sorted(v.items(), key=lambda kv: str(kv[0]))}
+    if isinstance(v, (set, frozenset)):
+        return sorted(str(x) for x in v)
     a = getattr(v, 'a', None)
     if isinstance(a, ast.AST) and getattr(v, 'is_FST', False):
         return {'node': pathof.get(id(a), '?')}
@@ -87,7 +94,29 @@ def node_answers(f, root, pathof, kind):
         A[p] = _ask(lambda p=p: getattr(f, p), pathof)
     for m in NAV0:
         A[m] = _ask(lambda m=m: getattr(f, m)(), pathof)
+    # read-only observers beyond the listed accessors (DESIGN section 7.6 / 7.7): a tree that was edited must answer
+    # them exactly as a tree parsed from its source does
+    is_stmtish = isinstance(f.a, (ast.stmt, ast.mod, ast.ExceptHandler, ast.match_case))
+    A['copy_ast'] = _ask(lambda: ast.dump(f.copy_ast(), include_attributes=True), pathof)
+    A['ast_src'] = _ask(lambda: f.ast_src() if is_stmtish else None, pathof)
+    A['dump'] = _ask(lambda: f.dump(out='str', color=False) if is_stmtish else None, pathof)
+    loc = f.loc
+    A['find_loc'] = _ask(lambda: root.find_loc(*loc) if loc else None, pathof)
+    A['find_in_loc'] = _ask(lambda: root.find_in_loc(*loc) if loc else None, pathof)
+    A['find_contains_loc'] = _ask(lambda: root.find_contains_loc(*loc) if loc else None, pathof)
+    A['repath'] = _ask(lambda: f.repath() is f, pathof)
+    A['path_roundtrip'] = _ask(lambda: root.child_from_path(root.child_path(f)) is f, pathof)
+    A['last_header_child'] = _ask(lambda: f.last_header_child() if is_stmtish else None, pathof)
+    A['parents'] = _ask(lambda: list(f.parents()), pathof)
+    A['own_lines'] = _ask(lambda: list(f.own_lines()) if is_stmtish else None, pathof)
+    A['scope_symbols'] = _ask(lambda: _symbols(f) if f.is_scope_or_mod else None, pathof)
+    A['walk_order'] = _ask(lambda: [pathof.get(id(g.a), '?') for g in f.walk(self_=False, recurse=False)], pathof)
+    A['get_src_loc'] = _ask(lambda: root.get_src(*loc) if loc else None, pathof)
     return A
+
+
+def _symbols(f):
+    return {'flat': f.scope_symbols(), 'full': f.scope_symbols(full=True)}
 
 
 def in_ftstr(tree, path):
